@@ -19,6 +19,7 @@ type Leaf struct {
 // transparentForeign lists foreign struct types whose fields we look into.
 var transparentForeign = map[string]bool{
 	"text/scanner.Position": true,
+	"reflect.StructField":   true,
 }
 
 func isOpaqueNamed(t types.Type) bool {
